@@ -440,6 +440,11 @@ CASES += [
     ("getitem 2-D pair alias", "lambda anp, x: x[[0, -2, 1], [2, -1, 0]]", [((2, 3), "R")], (0,)),
     ("getitem int64 array 1-D unique", "lambda anp, x: x[" + _np + ".array([4, 0, 2])] ** 2", [((5,), "R")], (0,)),
         ("take_along-like gather of gather", "lambda anp, x: x[[1, -4, 2]][[0, 1, 1, -3]]", [((5,), "R")], (0,)),
+    # diagonal / make_diagonal in the one configuration the reverse rule supports, on NON-SQUARE trailing axes
+    ("diagonal (2,3) axes (-1,-2)", "lambda anp, x: anp.diagonal(x, axis1=-1, axis2=-2)", [((2, 3), "R")], (0,)),
+    ("diagonal (3,2) axes (-1,-2)", "lambda anp, x: anp.diagonal(x, axis1=-1, axis2=-2) ** 2", [((3, 2), "R")], (0,)),
+    ("diagonal (2,2,3) axes (-1,-2)", "lambda anp, x: anp.diagonal(x, axis1=-1, axis2=-2)", [((2, 2, 3), "R")], (0,)),
+    ("diagonal (3,3) axes (-1,-2)", "lambda anp, x: anp.diagonal(x, axis1=-1, axis2=-2)", [((3, 3), "R")], (0,)),
     # reductions of ONE-element arrays of rank >= 1 (the reduction still removes axes)
     ("max (1,)", "lambda anp, x: anp.max(x)", [((1,), "R")], (0,)),
     ("min (1,1) axis=0", "lambda anp, x: anp.min(x, axis=0)", [((1, 1), "R")], (0,)),
